@@ -63,11 +63,28 @@ def unrelated(kind, tid=1):
     if kind == 'D':
         # a record whose name merely starts like the lookup records' name
         return E.ev('VFS_LOOKUP_DONE', 0, tid=tid, data=B.le(0x77, 8) + b'/done'.ljust(24, b'\0'))
+    if kind == 'X':
+        # the own terminate record of the thread (a decodable kernel trace-data record naming this very thread)
+        return E.ev('TRACE_DATA_THREAD_TERMINATE', 0, (tid, 0, 0, 0), tid=tid)
+    if kind == 'L':
+        return E.ev('TRACE_LOST_EVENTS', 0, (0, 0, 0, 0), tid=tid)
     if kind == 'K':
         return E.ev('MACH_vm_page_release', 0, (1, 2, 3, 4), tid=tid)
     if kind == 'U':
         return E.ev(0xdead0000, 0, (1, 2, 3, 4), tid=tid)
     return E.ev('MACH_WAIT', 0, (0x10, 0, 0, 0), tid=tid)
+
+
+_GAP_CODES = None
+
+
+def gap_codes():
+    """event ids of the records this check inserts as 'unrelated': a trace that begins with one of them belongs to that record."""
+    global _GAP_CODES
+    if _GAP_CODES is None:
+        _GAP_CODES = {E.n2i(n) for n in ('BSC_getpid', 'MACH_WAIT', 'TRACE_DATA_NEWTHREAD', 'TRACE_DATA_THREAD_TERMINATE', 'TRACE_LOST_EVENTS',
+                                          'MACH_vm_page_release', 'VFS_LOOKUP_DONE')} | {0xdead0000}
+    return _GAP_CODES
 
 
 def run(events):
@@ -110,7 +127,7 @@ def judge_standalone(kind, L, pattern, gap=None):
         if gap == 'stale':
             evs = with_stale_start(evs, 'lookup')
         out, p = run(evs)
-        out = [t for t in out if type(t).__name__ not in ('BscGetpid', 'MachWait', 'TraceDataNewthread')]
+        out = [t for t in out if t.ktraces[0].eventid not in gap_codes()]
         lk = [t for t in out if type(t).__name__ == 'VfsLookup']
         if len(out) != 1 or len(lk) != 1:
             return [('continuation-record-produced-its-own-trace:lookup' if len(out) > 1 else 'lookup-trace-missing',
@@ -124,7 +141,7 @@ def judge_standalone(kind, L, pattern, gap=None):
         if gap == 'stale':
             evs = with_stale_start(evs, 'gstring')
         out, p = run(evs)
-        out = [t for t in out if type(t).__name__ not in ('BscGetpid', 'MachWait', 'TraceDataNewthread')]
+        out = [t for t in out if t.ktraces[0].eventid not in gap_codes()]
         gs = [t for t in out if type(t).__name__ == 'TraceStringGlobal']
         if len(out) != 1 or len(gs) != 1:
             return [('continuation-record-produced-its-own-trace:global-string' if len(out) > 1 else 'global-string-trace-missing',
@@ -138,7 +155,7 @@ def judge_standalone(kind, L, pattern, gap=None):
         code = 'TRACE_STRING_THREADNAME' if kind == 'threadname' else 'TRACE_STRING_THREADNAME_PREV'
         evs = with_gaps(threadname_events(txt, tid=5, code=code), gap)
         out, p = run(evs)
-        out = [t for t in out if type(t).__name__ not in ('BscGetpid', 'MachWait', 'TraceDataNewthread')]
+        out = [t for t in out if t.ktraces[0].eventid not in gap_codes()]
         if len(out) != 1:
             return [('thread-name-trace-count', {'n': len(out), 'n_records': len(evs)})]
         if out[0].name != txt:
@@ -173,7 +190,8 @@ def judge_enclosed(name, texts, gaps):
     for i, t in enumerate(texts):
         if i in gaps:
             evs.append(unrelated(gaps[i]))
-        evs += lookup_events(VN + i, t)
+        # key 100+i: the unrelated record sits BETWEEN the records of lookup i
+        evs += with_gaps(lookup_events(VN + i, t), gaps.get(100 + i))
     if len(texts) in gaps:
         evs.append(unrelated(gaps[len(texts)]))
     evs.append(E.ev(name, 2, e))
@@ -197,10 +215,10 @@ class C08(Check):
     level = 'model_checking'
     rule = ('texts of every byte length 0..184 x 5 content patterns (ASCII; 2-byte and 3-byte UTF-8 characters placed to '
             'straddle record boundaries; all separators; blanks and dots) chunked kernel-style: (a) stand-alone VFS_LOOKUP, TRACE_STRING_GLOBAL (lengths '
-            '0..184) and THREADNAME / THREADNAME_PREV (0..63) record sequences, bare and with an unrelated same-thread record (undecoded, unknown, decodable NONE, a kernel trace-data record with non-text bytes, a VFS_LOOKUP_DONE record, a complete START/END pair) in every gap between the chunk records, and preceded by the START record of an earlier text whose END was lost - exactly one trace with exactly the text (and '
+            '0..184) and THREADNAME / THREADNAME_PREV (0..63) record sequences, bare and with an unrelated same-thread record (undecoded, unknown, decodable NONE, a kernel trace-data record with non-text bytes, a VFS_LOOKUP_DONE record, the own terminate record of the thread, the lost-events marker, a complete START/END pair) in every gap between the chunk records, and preceded by the START record of an earlier text whose END was lost - exactly one trace with exactly the text (and '
             'vnode id / string id), tables hold exactly the announced text; (b) every path-taking BSD decoder (66 names, frozen '
             'slot table) x one lookup of every length x patterns; x k in {0,1,2,3,6} lookups of boundary lengths '
-            '{0,1,23,24,25,55,56,57,184} x an unrelated same-thread record (undecoded, unknown, decodable NONE) in every gap. '
+            '{0,1,23,24,25,55,56,57,184} x an unrelated same-thread record (undecoded, unknown, decodable NONE, kernel trace data, look-alike, the own terminate record of the thread, the lost-events marker) in every gap between lookups, and (lengths 25/56/184) between the RECORDS of each multi-record lookup. '
             'Oracle: quoted path slots equal the looked-up texts in lookup order (documented slot choice for posix_spawn, '
             'symlinkat, fsgetpath). states = distinct (record count, decoder) shapes; transitions = feed calls; non-trivial = the '
             'text spans >=2 records.')
@@ -226,7 +244,7 @@ class C08(Check):
                 for pattern in range(NPAT):
                     first = {'lookup': 24, 'gstring': 16}.get(kind, 32)
                     nrec = 1 if L <= first else 1 + -(-(L - first) // 32)
-                    for gap in ((None, 'stale') if nrec < 2 else (None, 'K', 'U', 'W', 'T', 'D', 'pair', 'stale')):
+                    for gap in ((None, 'stale') if nrec < 2 else (None, 'K', 'U', 'W', 'T', 'D', 'X', 'L', 'pair', 'stale')):
                         try:
                             bad = judge_standalone(kind, L, pattern, gap)
                         except Exception as ex:
@@ -252,8 +270,12 @@ class C08(Check):
                         self._enc(acc, name, texts, {})
                         if li < 3:
                             for pos in range(k + 1):
-                                for kind in ('K', 'U', 'W', 'T', 'D'):
+                                for kind in ('K', 'U', 'W', 'T', 'D', 'X', 'L'):
                                     self._enc(acc, name, texts, {pos: kind})
+                        if li in (4, 6, 8):
+                            for pos in range(k):
+                                for kind in ('K', 'W', 'T', 'D', 'X', 'pair'):
+                                    self._enc(acc, name, texts, {100 + pos: kind})
 
     def _enc(self, acc, name, texts, gaps):
         try:
